@@ -1372,6 +1372,8 @@ def normalise(project, path=PINNED):
                 if not progress:
                     progress += collapse_copy_in_out(fi.node, rec_names | _params(fi.node))
                 if not progress:
+                    progress += collapse_slice_fill(fi.node, rec_names | _params(fi.node))
+                if not progress:
                     progress += split_conditional_addend(fi.node, rec_names | _params(fi.node))
                 if not progress:
                     progress += split_selector_conditionals(fi.node, rec_names | _params(fi.node))
@@ -2143,6 +2145,84 @@ def collapse_copy_in_out(fn, rec_names):
         if done[0] == before:
             break
     return done[0]
+
+
+_FLOAT_DTYPES = ("float", "float64", "np.float64", "numpy.float64", "double")
+
+
+def collapse_slice_fill(fn, rec_names):
+    """`X = empty(n) | zeros(n) | empty_like(v, dtype=float) ...; X[:k] = A; X[k:] = B` (X a new local, consecutive
+    statements, constant bounds that tile the buffer from the front, X not read in A / B) -> `X = concatenate((A, B))`:
+    what a helper that fills a float result buffer half by half leaves behind once it is inlined.  A buffer without an
+    explicit or default float dtype is left alone (its dtype is the caller's: a different function)."""
+    done = 0
+
+    def creation(st):
+        if not (isinstance(st, (ast.Assign, ast.AnnAssign)) and st.value is not None and isinstance(st.value, ast.Call)):
+            return None
+        tg = st.targets[0] if isinstance(st, ast.Assign) and len(st.targets) == 1 else getattr(st, "target", None)
+        if not isinstance(tg, ast.Name) or tg.id in rec_names:
+            return None
+        c = st.value
+        f = c.func.attr if isinstance(c.func, ast.Attribute) else getattr(c.func, "id", None)
+        dtype = next((k.value for k in c.keywords if k.arg == "dtype"), None)
+        if f in ("empty", "zeros") and len(c.args) == 1 and (dtype is None or ast.unparse(dtype) in _FLOAT_DTYPES):
+            return tg.id
+        if f in ("empty_like", "zeros_like") and c.args and dtype is not None and ast.unparse(dtype) in _FLOAT_DTYPES:
+            return tg.id
+        return None
+
+    def bound(e):
+        if e is None:
+            return None
+        if isinstance(e, ast.Constant) and isinstance(e.value, int):
+            return e.value
+        return "?"
+
+    def walk(body):
+        nonlocal done
+        i = 0
+        while i < len(body):
+            name = creation(body[i])
+            if name is not None:
+                parts, pos, j = [], 0, i + 1
+                closed = False
+                while j < len(body):
+                    st = body[j]
+                    if not (isinstance(st, ast.Assign) and len(st.targets) == 1 and isinstance(st.targets[0], ast.Subscript) and isinstance(st.targets[0].value, ast.Name) and st.targets[0].value.id == name and isinstance(st.targets[0].slice, ast.Slice) and st.targets[0].slice.step is None):
+                        break
+                    sl = st.targets[0].slice
+                    lo, hi = bound(sl.lower), bound(sl.upper)
+                    if lo == "?" or hi == "?" or (lo or 0) != pos or closed:
+                        parts = None
+                        break
+                    if any(isinstance(n, ast.Name) and n.id == name for n in ast.walk(st.value)):
+                        parts = None
+                        break
+                    parts.append(st.value)
+                    if hi is None:
+                        closed = True
+                    else:
+                        pos = hi
+                    j += 1
+                if parts and len(parts) >= 2 and closed:
+                    cat = ast.Call(func=ast.Name(id="concatenate", ctx=ast.Load()), args=[ast.Tuple(elts=parts, ctx=ast.Load())], keywords=[])
+                    new = ast.Assign(targets=[ast.Name(id=name, ctx=ast.Store())], value=cat)
+                    ast.copy_location(new, body[i])
+                    ast.fix_missing_locations(new)
+                    body[i:j] = [new]
+                    done += 1
+            i += 1
+        for st in body:
+            for fld in ("body", "orelse", "finalbody"):
+                sub = getattr(st, fld, None)
+                if isinstance(sub, list) and sub and isinstance(sub[0], ast.stmt):
+                    walk(sub)
+            for h in getattr(st, "handlers", []) or []:
+                walk(h.body)
+
+    walk(fn.body)
+    return done
 
 
 _SCA = [0]
